@@ -20,7 +20,12 @@ def run(chk, replay=None):
     r = common.run(["python3", os.path.join(VERIF, "glue", "c03gen.py"), out, chk.tier, expander], timeout=1200)
     if r["rc"] != 0:
         raise Inconclusive("c03gen failed: " + r["err"][-2000:])
-    common.sync_lock(out)
+    # the case crate enables cglue's `futures` feature: start from the lock file of /verif/rt, which pins the futures crates
+    # to the versions available offline (the repository's own lock does not list them)
+    lock = os.path.join(out, "Cargo.lock")
+    if not os.path.exists(lock) or "futures-util" not in open(lock).read():
+        import shutil
+        shutil.copy(os.path.join(common.VERIF, "rt", "Cargo.lock"), lock)
     meta = gluerun.meta(out, "c03.json")
     cases = {c["case"]: c for c in meta["cases"]}
     failed_exp = [c for c in meta["cases"] if "expander_failed" in c]
